@@ -299,6 +299,9 @@ def classify(ops, res):
     if "mono" in kinds and tag == "input-derivative" and re.search(r"\bmono 1\b", ops[0]):
         return "monomial-degree1-input-derivative", (f"MonomialKernel(1)::weightedInputDerivative is 0 where <x,z> = 0 "
                                                     f"(finite differences disagree) on ops {ops}")
+    if "prod" in kinds and tag in ("product-parameter-count", "parameter-vector-size"):
+        return "product-uninitialised-parameter-count", (f"ProductKernel::m_numberOfParameters is never initialised: "
+                                                        f"numberOfParameters() is garbage ({res.oracle[0][-90:]}) for '{ops[0]}'")
     if "prod" in kinds and "prod 0" in ops[0] and (crash or tag):
         return "empty-product-block", f"ProductKernel with no factors: block evaluation fails ({tag or crash}) on ops {ops}"
     if crash:
